@@ -38,8 +38,9 @@ Module F.
   (* field arithmetic mod p on BigZ; all values kept in [0, p) *)
   Definition bp : bigZ := BigZ.of_Z secp_p.
   Definition mul (a b : bigZ) : bigZ := BigZ.modulo (BigZ.mul a b) bp.
-  Definition add (a b : bigZ) : bigZ := BigZ.modulo (BigZ.add a b) bp.
-  Definition sub (a b : bigZ) : bigZ := BigZ.modulo (BigZ.sub a b) bp.
+  (* operands in [0, p): one conditional correction instead of a division *)
+  Definition add (a b : bigZ) : bigZ := let s := BigZ.add a b in if BigZ.ltb s bp then s else BigZ.sub s bp.
+  Definition sub (a b : bigZ) : bigZ := let d := BigZ.sub a b in if BigZ.ltb d BigZ.zero then BigZ.add d bp else d.
   Definition sqr (a : bigZ) : bigZ := mul a a.
   Definition dbl (a : bigZ) : bigZ := add a a.
   Definition is0 (a : bigZ) : bool := BigZ.eqb a BigZ.zero.
